@@ -387,8 +387,8 @@ def run_traces(ctx, n_models, extra=()):
     # canaries
     j = [e for e in events if e['ev'] == 'jensen' and e['id'] not in badids]
     wv = [e for e in events if e['ev'] == 'wavg' and e['id'] not in badids]
-    if n_models and (not j or not wv):
-        raise Machinery('no event available for the canary')
+    if n_models and (not j or not wv) and not (badids or ctx.has_violations()):
+        raise Machinery('no event available for the canary')       # (every event rejected: already violations)
     can = []
     if j and wv:
         c1 = dict(j[0])
@@ -436,7 +436,10 @@ def run_histories(ctx, nwalks, thorough):
         fx.reset_all()
         try:
             scs = fh.scenarios(ctx, root, log, thorough=thorough)
-            n = history.run_history(ctx, scs, nwalks)
+            # table objects are cheap to evaluate: many more walks, so that every ORDERED pair of requested grids is
+            # evaluated back to back on one object (a memo keyed on too little may be exposed in one order only)
+            n = history.run_history(ctx, [x for x in scs if isinstance(x, fh.TableScenario)], 4 * nwalks)
+            n += history.run_history(ctx, [x for x in scs if isinstance(x, fh.ModelScenario)], nwalks)
             if not ctx.has_violations():
                 fh.self_check(scs, log)
         finally:
